@@ -198,10 +198,9 @@ func (m *allocModel) step(s *mstate, in opIn, out opOut) (bool, *mstate) {
 					return false, s
 				}
 			} else {
-				free, freeSquatted, cands := 0, 0, 0
+				freeSquatted, cands := 0, 0
 				for p := range m.allowed {
 					if len(s.owners(pi, p)) == 0 {
-						free++
 						if s.squat[pi][p] {
 							freeSquatted++
 						} else {
@@ -210,9 +209,9 @@ func (m *allocModel) step(s *mstate, in opIn, out opOut) (bool, *mstate) {
 					}
 				}
 				if !out.OK {
-					// legal when nothing is grantable; tolerated when the server's bounded search (5 candidates)
-					// can have met only squatted ports
-					if cands == 0 || (free > 5 && freeSquatted > 0) {
+					// legal when nothing is grantable; tolerated when a free port is held by another program: the
+					// server's choice may have fallen on it (before the squatter came, or within its 5 candidates)
+					if cands == 0 || freeSquatted > 0 {
 						return true, s
 					}
 					return false, s
